@@ -16,6 +16,7 @@ macro_rules! builtin {
             // no user declarations: FnvMap::default() is the empty-table fast path
             let table: OpTable<String> = OpTable { operators: FnvMap::default() };
             expect(&table, $name, $prec, $fix);
+            kani::cover!(true);
             core::mem::forget(table);
         }
     };
@@ -42,6 +43,7 @@ fn c08__builtin_ops__plain_names_have_no_builtin_fixity() {
     assert!(table.get(&"+".to_string()).is_none());
     assert!(table.get(&"<>".to_string()).is_none());
     core::mem::forget(table);
+    kani::cover!(true); // vacuity guard: the end of the harness is reachable under its assumptions
 }
 
 /// OpMeta ordering facts the resolver's shift/reduce decision is built from
@@ -50,4 +52,5 @@ fn c08__opmeta__new_keeps_fields() {
     let p: i32 = kani::any();
     let m = OpMeta::new(p, Fixity::Right);
     assert!(m.precedence == p && m.fixity == Fixity::Right);
+    kani::cover!(true); // vacuity guard: the end of the harness is reachable under its assumptions
 }
